@@ -1,7 +1,7 @@
 (* What the translated decision functions used by the agent-core model compute.  The model calls the functions that
    gentrans regenerates from /repo on every run (responseSymmetric, CandidatePair.equal): these lemmas pin their
    meaning, so an edit of the Go function that changes the rule breaks a proof instead of silently moving the model. *)
-From Coq Require Import ZArith Bool List.
+From Coq Require Import ZArith Bool List Lia.
 From Ice Require Import Model.AgentTypes Model.AgentCore Gen.Consts Gen.Lifecycle Proofs.TwoAgentsProofs.
 Import ListNotations.
 Local Open Scope Z_scope.
@@ -11,15 +11,19 @@ Local Open Scope Z_scope.
 Theorem response_symmetry_rule q l src :
   response_symmetric q l src = true <-> (q_net q = c_net l /\ q_dst q = src).
 Proof.
-  unfold response_symmetric, responseSymmetric. rewrite andb_true_iff, Z.eqb_eq. split.
-  - intros [H1 H2]. split; [exact H1|apply addr_eqb_eq; exact H2].
-  - intros [H1 H2]. split; [exact H1|subst src; apply addr_eqb_refl].
+  unfold response_symmetric, responseSymmetric.
+  destruct (Z.eqb_spec (q_net q) (c_net l)) as [En|En], (addr_eqb (q_dst q) src) eqn:Ea; cbn; split; intros H;
+    try discriminate H; try reflexivity.
+  - split; [exact En|apply addr_eqb_eq; exact Ea].
+  - destruct H as [_ H]. subst src. rewrite addr_eqb_refl in Ea. discriminate Ea.
+  - destruct H as [H _]. contradiction.
+  - destruct H as [H _]. contradiction.
 Qed.
 
 (* two listed pairs are the same pair iff their local candidates are Equal and their remote candidates are Equal *)
 Theorem pair_equal_rule a b :
   pair_equal a b = cand_equal (p_loc a) (p_loc b) && cand_equal (p_rem a) (p_rem b).
-Proof. reflexivity. Qed.
+Proof. unfold pair_equal, CandidatePair_equal. destruct (cand_equal (p_loc a) (p_loc b)), (cand_equal (p_rem a) (p_rem b)); reflexivity. Qed.
 
 (* controllingSelector.isNominatable: a candidate may be nominated once the selector has run for the acceptance
    wait configured for its type (host / srflx / prflx / relay); a candidate of no known type never *)
@@ -32,13 +36,13 @@ Theorem nominatable_rule cfg s c :
 Proof.
   unfold is_nominatable, isNominatable, acceptance_wait.
   unfold CandidateTypeHost, CandidateTypeServerReflexive, CandidateTypePeerReflexive, CandidateTypeRelay.
-  destruct (c_typ c =? 1); [reflexivity|]. destruct (c_typ c =? 2); [reflexivity|].
-  destruct (c_typ c =? 3); [reflexivity|]. destruct (c_typ c =? 4); reflexivity.
+  destruct (Z.eqb_spec (c_typ c) 1), (Z.eqb_spec (c_typ c) 2), (Z.eqb_spec (c_typ c) 3), (Z.eqb_spec (c_typ c) 4);
+    try reflexivity; exfalso; lia.
 Qed.
 
 (* Agent.needsToCheckPriorityOnNominated and the controlled selector's switch rule *)
 Theorem priority_check_rule lite flag : needsToCheckPriorityOnNominated lite flag = negb lite || flag.
-Proof. reflexivity. Qed.
+Proof. unfold needsToCheckPriorityOnNominated. destruct lite, flag; reflexivity. Qed.
 
 Theorem switch_rule has_sel same has_nom check sel_prio prio :
   shouldSwitchSelectedPair has_sel same has_nom check sel_prio prio =
@@ -46,9 +50,14 @@ Theorem switch_rule has_sel same has_nom check sel_prio prio :
   else if same then false              (* already on that pair *)
   else if has_nom then true            (* a renomination value decides, not the priority *)
   else negb check || (sel_prio <? prio).
-Proof. reflexivity. Qed.
+Proof.
+  unfold shouldSwitchSelectedPair. destruct has_sel, same, has_nom, check, (sel_prio <? prio); reflexivity.
+Qed.
 
 (* Agent.handleInbound's method/class filter: Binding requests, success responses and indications only *)
 Theorem inbound_filter_rule method class :
   canHandleInbound method class = (method =? 1) && ((class =? 2) || (class =? 0) || (class =? 1)).
-Proof. reflexivity. Qed.
+Proof.
+  unfold canHandleInbound.
+  destruct (Z.eqb_spec method 1), (Z.eqb_spec class 2), (Z.eqb_spec class 0), (Z.eqb_spec class 1); try reflexivity; exfalso; lia.
+Qed.
